@@ -2457,12 +2457,22 @@ func (ck *Check) passThroughMethod(f *types.Func, ifaces []*types.Named) bool {
 // fmt.Sprint / + / strings.Join of constants, OneTerm*Selector, AndSelectors, Everything).
 func (ck *Check) clusterView(rule string) {
 	type req struct{ k, op, v string }
+	// env binds the parameters of a list-watch helper to the arguments of one of its call sites
+	var env map[*ssa.Parameter]ssa.Value
 	var constStr func(v ssa.Value, depth int) (string, bool)
 	constStr = func(v ssa.Value, depth int) (string, bool) {
 		if depth > 6 {
 			return "", false
 		}
 		switch x := v.(type) {
+		case *ssa.Parameter:
+			if bv, ok := env[x]; ok {
+				saved := env
+				env = nil
+				s, ok := constStr(bv, depth+1)
+				env = saved
+				return s, ok
+			}
 		case *ssa.Const:
 			if x.Value != nil && x.Value.Kind() == constant.String {
 				return constant.StringVal(x.Value), true
@@ -2530,6 +2540,15 @@ func (ck *Check) clusterView(rule string) {
 		}
 		if ex, ok := v.(*ssa.Extract); ok && ex.Index == 0 {
 			v = ex.Tuple
+		}
+		if prm, ok := v.(*ssa.Parameter); ok {
+			if bv, ok := env[prm]; ok {
+				saved := env
+				env = nil
+				r, ok := selector(bv, depth+1)
+				env = saved
+				return r, ok
+			}
 		}
 		c, ok := v.(*ssa.Call)
 		if !ok {
@@ -2600,32 +2619,61 @@ func (ck *Check) clusterView(rule string) {
 				continue
 			}
 			args := ci.Common().Args
-			res, okR := constStr(args[1], 0)
-			ns, okN := constStr(args[2], 0)
-			key := funcID(fn) + "/list-watch:" + res
-			if !okR || (res != "pods" && res != "nodes") {
-				ck.fail(rule, funcID(fn)+"/list-watch", ck.P.instrPos(ci), funcID(fn), "the informers list and watch \"pods\" and \"nodes\"", args[1].String(), "")
-				continue
+			// a helper that takes the resource, the namespace or the selector as parameters is read
+			// once per call site
+			var envs []map[*ssa.Parameter]ssa.Value
+			usesParam := false
+			for _, av := range args[1:] {
+				if _, isP := av.(*ssa.Parameter); isP {
+					usesParam = true
+				}
 			}
-			seen[res]++
-			ck.cond(okN && ns == "", rule, key+"/namespace", ck.P.instrPos(ci), funcID(fn), res+" are listed and watched in all namespaces", args[2].String(), "pods outside the watched namespace are invisible: their requests are not counted and their nodes look empty")
-			reqs, okS := selector(args[3], 0)
-			if !okS {
-				ck.undecided(rule, key+"/selector", ck.P.instrPos(ci), funcID(fn), "the field selector is built from constants (ParseSelector*, OneTerm*Selector, AndSelectors, Everything)", args[3].String())
-				continue
+			if usesParam {
+				for _, caller := range ck.P.callers[fn] {
+					for _, site := range callsTo(caller, fn) {
+						e := map[*ssa.Parameter]ssa.Value{}
+						for k, av := range site.Common().Args {
+							if k < len(fn.Params) {
+								e[fn.Params[k]] = av
+							}
+						}
+						envs = append(envs, e)
+					}
+				}
 			}
-			var extra []string
-			for _, r := range reqs {
-				if res == "pods" && r.k == "status.phase" && r.op == "!=" && (r.v == "Succeeded" || r.v == "Failed") {
+			if len(envs) == 0 {
+				envs = []map[*ssa.Parameter]ssa.Value{nil}
+			}
+			for _, e := range envs {
+				env = e
+				res, okR := constStr(args[1], 0)
+				ns, okN := constStr(args[2], 0)
+				key := funcID(fn) + "/list-watch:" + res
+				if !okR || (res != "pods" && res != "nodes") {
+					ck.fail(rule, funcID(fn)+"/list-watch", ck.P.instrPos(ci), funcID(fn), "the informers list and watch \"pods\" and \"nodes\"", args[1].String(), "")
 					continue
 				}
-				extra = append(extra, r.k+r.op+r.v)
+				seen[res]++
+				ck.cond(okN && ns == "", rule, key+"/namespace", ck.P.instrPos(ci), funcID(fn), res+" are listed and watched in all namespaces", args[2].String(), "pods outside the watched namespace are invisible: their requests are not counted and their nodes look empty")
+				reqs, okS := selector(args[3], 0)
+				if !okS {
+					ck.undecided(rule, key+"/selector", ck.P.instrPos(ci), funcID(fn), "the field selector is built from constants (ParseSelector*, OneTerm*Selector, AndSelectors, Everything)", args[3].String())
+					continue
+				}
+				var extra []string
+				for _, r := range reqs {
+					if res == "pods" && r.k == "status.phase" && r.op == "!=" && (r.v == "Succeeded" || r.v == "Failed") {
+						continue
+					}
+					extra = append(extra, r.k+r.op+r.v)
+				}
+				want := "every node"
+				if res == "pods" {
+					want = "every pod except those whose phase is Succeeded or Failed"
+				}
+				ck.cond(len(extra) == 0, rule, key+"/selector", ck.P.instrPos(ci), funcID(fn), "the informer selects "+want, fmt.Sprint(reqs), "objects are hidden from every scan by the selector: "+strings.Join(extra, ", "))
 			}
-			want := "every node"
-			if res == "pods" {
-				want = "every pod except those whose phase is Succeeded or Failed"
-			}
-			ck.cond(len(extra) == 0, rule, key+"/selector", ck.P.instrPos(ci), funcID(fn), "the informer selects "+want, fmt.Sprint(reqs), "objects are hidden from every scan by the selector: "+strings.Join(extra, ", "))
+			env = nil
 		}
 	}
 	ck.cond(seen["pods"] == 1 && seen["nodes"] == 1, rule, "list-watch/census", "", "", "exactly one list-watch each for pods and for nodes", fmt.Sprint(seen), "")
